@@ -23,7 +23,7 @@ import os
 
 TARGET = "SyncProg.lean"
 
-BUILTINS = {"self", "new", "event", "isinstance", "slice", "len", "setattr", "getattr", "list", "None"}
+BUILTINS = {"self", "new", "event", "isinstance", "slice", "len", "setattr", "getattr", "list", "None", "id"}
 
 
 class Unknown(Exception):
@@ -70,6 +70,7 @@ ATOM_COND = {
     "%s is None" % PARTNER: ".partnerDead",
     "isinstance(INDEX, slice)": ".indexIsSlice",
     "%s is getattr(self, NAME)" % PLIST: ".sameListObject",
+    "id(%s) in UPDATED" % PLIST: ".partnerListUpdated",
     "event.added": ".eventAdded",
     "INDEX.step is None": ".stepIsNone",
 }
@@ -80,6 +81,7 @@ ATOM_ACT = {
     "setattr(%s, PNAME, new)" % PARTNER: ".setPartner",
     "%s[INDEX] = event.added" % PLIST: ".partnerSetSlice",
     "del %s[INDEX]" % PLIST: ".partnerDelSlice",
+    "UPDATED.add(id(%s))" % PLIST: ".markUpdated",
 }
 
 
@@ -181,6 +183,12 @@ def stmt(s, env):
             env["__index_bound__"] = sym("None")
             env[tgt] = sym("INDEX")
             return None
+        if rhs == "{id(getattr(self, NAME))}":
+            # a mutable local set of list identities: an effect, not a pure binding
+            if tgt in env:
+                raise Unknown("%s bound twice" % tgt)
+            env[tgt] = sym("UPDATED")
+            return "(.act .initUpdated)"
         if rhs in PURE:
             env[tgt] = sym(rhs)
             return None
